@@ -9,9 +9,10 @@ from harness import tlc
 feats = dict(schedmt.BASE_FEATURES); feats.update(json.loads(sys.argv[1]))
 seed, run, step = int(sys.argv[2]), int(sys.argv[3]), int(sys.argv[4])
 nruns = int(sys.argv[5]) if len(sys.argv) > 5 else 4
+commands = bool(int(os.environ.get("MT_COMMANDS", "0")))
 scratch = tempfile.mkdtemp(prefix='mtdiag-', dir='/dev/shm')
 try:
-    wf = schedmt._one_wf({"seed": seed, "scratch": scratch, "features": feats, "nruns": nruns})
+    wf = schedmt._one_wf({"seed": seed, "scratch": scratch, "features": feats, "nruns": nruns, "commands": commands})
     if "error" in wf:
         print(wf["error"]); sys.exit(2)
     print(wf["flow"])
@@ -22,11 +23,11 @@ EXTENDS SchedMT
 R == MT_Runs[%d]
 DInit == LET s == R[%d].st IN
   /\\ pool = AsModelPool(s.pool) /\\ rhl = s.rhl /\\ rhbase = s.rhbase /\\ q = s.q /\\ cmds = s.cmds /\\ jobs = s.jobs
-  /\\ net = s.net /\\ acks = s.acks /\\ stopped = s.stopped /\\ futseen = s.futseen /\\ maxfut = s.maxfut
+  /\\ net = s.net /\\ acks = s.acks /\\ stopped = s.stopped /\\ futseen = s.futseen /\\ maxfut = s.maxfut /\\ tohold = s.tohold /\\ holdpt = s.holdpt /\\ stopcmd = (IF s.stop = W.fcp THEN NoPoint ELSE s.stop) /\\ cb = 9
   /\\ done = OutsOf(s.pool) /\\ ran = {} /\\ db = [pool |-> {}] /\\ fb = [dup |-> 0, crash |-> 0]
   /\\ tid = %d /\\ l = %d /\\ bad = {}
 DNext == l = %d /\\ Act(R[l + 1]) /\\ l' = l + 1 /\\ UNCHANGED <<tid, bad>>
-         /\\ PrintT(<<"SUCC", pool', rhl', rhbase', futseen', maxfut', q', cmds', jobs', net', acks', stopped'>>)
+         /\\ PrintT(<<"SUCC", pool', rhl', rhbase', futseen', maxfut', tohold', holdpt', stopcmd', q', cmds', jobs', net', acks', stopped'>>)
 DSpec == DInit /\\ [][DNext]_mtvars
 ====
 """ % (run, step - 1, run, step - 1, step - 1))
@@ -43,7 +44,9 @@ DSpec == DInit /\\ [][DNext]_mtvars
     steps = None
     for k in range(run):
         home = tempfile.mkdtemp(prefix="r", dir=scratch)
-        r = modeltrace.one_mt_run(w, rng.randrange(1 << 30), rng.randrange(1 << 30), home)
+        plan = modeltrace.command_plan(w, rng) if commands and k % 2 == 1 else None
+        r = modeltrace.one_mt_run(w, rng.randrange(1 << 30), rng.randrange(1 << 30), home,
+                                  mode="complete_novanish" if k % 4 < 2 else "any_novanish", plan=plan)
         steps = r["steps"]
     a, b = steps[step - 2], steps[step - 1]
     print("EVENT", b["ev"], b["arg"], "(harness event index %d)" % b["i"])
